@@ -4,7 +4,7 @@
    those of the independent layout tables of Spec/Layout.v. *)
 From Coq Require Import ZArith List Bool String.
 Require Import Prim.Exn Prim.Bits Gen.GenEnums Model.FieldTypes Gen.GenTables Model.Codec Spec.Layout Spec.LayoutRel
-               Proofs.BitsLemmas Proofs.CodecDecode.
+               Proofs.BitsLemmas Proofs.CodecCommon Proofs.CodecPrefix.
 Import ListNotations.
 Open Scope Z_scope.
 
@@ -31,16 +31,18 @@ Theorem C11_dispatch_prefix_stable : forall b v n, selects b v -> (Nat.max 6 (di
 Proof. exact selects_prefix. Qed.
 Print Assumptions C11_dispatch_prefix_stable.
 
-(* non-vacuity: a real type 1 payload cut after 100 bits, in the middle of the latitude (bits 89..115) *)
+(* non-vacuity: a real type 1 payload cut after 100 bits, in the middle of the latitude (bits 89..115): the hypotheses
+   hold, the prefix decodes, the fields from `course` (bit 116) on are None.  (Only sign- and scale-independent values
+   are written out: C11 does not depend on them.) *)
 Example C11_nonvacuous : exists bits,
   decode_into_bit_array sample_type1 0 = Ok bits /\
   List.length bits = nominal V1 /\ spec_variant bits = Some V1 /\
   (Nat.max 6 (disc_end V1) <= 100 <= List.length bits)%nat /\
-  decode_bits (firstn 100 bits) =
-    Ok (MessageType1,
-        [VInt 1; VInt 0; VInt 366053209; VEnum E_NavigationStatus 3; VFloat 0 1; VFloat 0 1; VBool false;
-         VFloat (-122341618) 1000000; VFloat 577 1000000; VNone; VNone; VNone; VNone; VNone; VNone; VNone]).
+  exists vals', decode_bits (firstn 100 bits) = Ok (MessageType1, vals') /\
+                firstn 3 vals' = [VInt 1; VInt 0; VInt 366053209] /\
+                skipn 9 vals' = [VNone; VNone; VNone; VNone; VNone; VNone; VNone].
 Proof.
   eexists. split; [vm_compute; reflexivity|]. split; [vm_compute; reflexivity|]. split; [vm_compute; reflexivity|].
-  split; [split; apply Nat.leb_le; vm_compute; reflexivity|]. vm_compute. reflexivity.
+  split; [split; apply Nat.leb_le; vm_compute; reflexivity|].
+  eexists. split; [vm_compute; reflexivity|]. split; vm_compute; reflexivity.
 Qed.
